@@ -6,6 +6,7 @@ package main
 import (
 	"bytes"
 	"context"
+	"encoding/binary"
 	"encoding/hex"
 	"fmt"
 	"math/rand"
@@ -59,13 +60,13 @@ func (h *fakeHandler) AddValue(v directive.Value) (uint32, bool) {
 	h.vals = append(h.vals, v)
 	return uint32(len(h.vals)), true
 }
-func (h *fakeHandler) RemoveValue(id uint32) (directive.Value, bool)      { return nil, false }
-func (h *fakeHandler) RemoveValues() []directive.Value                    { return nil }
-func (h *fakeHandler) CountValues(bool) int                               { return len(h.vals) }
-func (h *fakeHandler) ClearValues() []uint32                              { return nil }
-func (h *fakeHandler) MarkIdle(bool)                                      {}
+func (h *fakeHandler) RemoveValue(id uint32) (directive.Value, bool)       { return nil, false }
+func (h *fakeHandler) RemoveValues() []directive.Value                     { return nil }
+func (h *fakeHandler) CountValues(bool) int                                { return len(h.vals) }
+func (h *fakeHandler) ClearValues() []uint32                               { return nil }
+func (h *fakeHandler) MarkIdle(bool)                                       {}
 func (h *fakeHandler) AddValueRemovedCallback(id uint32, cb func()) func() { return func() {} }
-func (h *fakeHandler) AddResolverRemovedCallback(cb func()) func()        { return func() {} }
+func (h *fakeHandler) AddResolverRemovedCallback(cb func()) func()         { return func() {} }
 func (h *fakeHandler) AddResolver(res directive.Resolver, cb func()) func() {
 	return func() {}
 }
@@ -506,6 +507,22 @@ func (e *engine) runC30() {
 	for i := 0; i < 30*e.a.Scale; i++ {
 		pcs = append(pcs, pc{e.rng.Bytes(1 + e.rng.Intn(5)), e.rng.Bytes(e.rng.Intn(5))})
 	}
+	// framing embedded in the protocol ID: for a pair (X, c) the FRAMED preimage
+	// uvarint(|X|) ‖ X ‖ c taken as a protocol ID of its own (with no context, and under every
+	// early split): a hash that leaves out the length prefix for some class of solicitations
+	// (no context, short IDs, ...) gives such an ID the hash of (X, c)
+	for _, xc := range []pc{{[]byte("abc"), []byte("d")}, {[]byte("test/echo"), []byte("/v1")}, {bytes.Repeat([]byte("x"), 97), []byte("/v1")},
+		{bytes.Repeat([]byte("q"), 130), []byte("ctx")}, {e.rng.Bytes(3), e.rng.Bytes(2)}, {[]byte("a"), []byte{0}}} {
+		pcs = append(pcs, xc)
+		framed := append(append(binary.AppendUvarint(nil, uint64(len(xc.pid))), xc.pid...), xc.ctx...)
+		pcs = append(pcs, pc{framed, nil})
+		for k := 1; k < len(framed) && k < 6; k++ {
+			pcs = append(pcs, pc{framed[:k], framed[k:]})
+		}
+		// ... and with the context framed as well (a second length field)
+		framed2 := append(append(append(binary.AppendUvarint(nil, uint64(len(xc.pid))), xc.pid...), binary.AppendUvarint(nil, uint64(len(xc.ctx)))...), xc.ctx...)
+		pcs = append(pcs, pc{framed2, nil})
+	}
 	hashes := map[string]pc{}
 	e.longSplits(sid, func(h []byte, x pc2) (string, string) {
 		o, ok := hashes[string(h)]
@@ -631,7 +648,6 @@ func (e *engine) runC30() {
 		e.rep.Disagree(lib.Disagreement{Op: "computeHashes maxHashes=2", Monitor: "unconfirmed", What: "computeHashes truncation differs from sorted prefix", Key: "solicit.truncate"})
 	}
 }
-
 
 // resolveCase runs resolveMatch (through the verif hook) for the hash of (pid, ctx) on a node that
 // holds dirs, and states the clause directly: exactly the directives that name this protocol ID and
